@@ -174,7 +174,7 @@ def main(tier):
     ev.cov["rule"] = RULE
     ev.assumptions = ["hook lookup_cache_off makes every identifier lookup take the by-name search path (the reference behaviour); a defect common to both paths is only "
                       "visible through the generator-known expectations and through C03"]
-    n = 4000 if tier == "quick" else 200000
+    n = 4000 if tier == "quick" else 60000
     failures = hyp.run("c04", ev, tier, n)
     confirmed = hyp.confirm("c04", failures, PID)
     for p, what in confirmed:
